@@ -88,6 +88,28 @@ func (w *World) commitDay(dir, rev string) (time.Time, bool) {
 
 type retainSet struct {
 	why map[string]string
+	// exclude: lfs.fetchexclude pattern; objects referenced (in that class)
+	// under a matching path are not demanded, except for stashes and
+	// unpushed commits (documented behaviour)
+	exclude string
+}
+
+func (r *retainSet) addPtrsFiltered(m map[string]*PtrRef, why string) {
+	if r.exclude == "" {
+		r.addPtrs(m, why)
+		return
+	}
+	for _, p := range m {
+		skip := false
+		for _, path := range p.Paths {
+			if matchSimple(r.exclude, path) {
+				skip = true // conservative: any excluded path drops the demand
+			}
+		}
+		if !skip && p.Size > 0 {
+			r.add(p.Oid, why+" ("+strings.Join(clipPaths(p.Paths), ",")+")")
+		}
+	}
 }
 
 func (r *retainSet) add(oid, why string) {
@@ -134,6 +156,13 @@ func runC05(c *Ctx, ambient bool) {
 	refsDays := []int{7, 0, 1, 3}[t.Choose(4, "fetchrecentrefsdays")]
 	commitsDays := []int{0, 1, 3, 7}[t.Choose(4, "fetchrecentcommitsdays")]
 	offsetDays := []int{3, 0, 1, 7}[t.Choose(4, "pruneoffsetdays")]
+	exclude := ""
+	if ambient {
+		exclude = []string{"", "", "*.dat", "dir"}[t.Choose(4, "fetchexclude")]
+	}
+	if exclude != "" {
+		w.MustGit(u1, "config", "lfs.fetchexclude", exclude)
+	}
 	w.ConfigureClone(u1, map[string]string{
 		"lfs.fetchrecentrefsdays":    fmt.Sprint(refsDays),
 		"lfs.fetchrecentcommitsdays": fmt.Sprint(commitsDays),
@@ -212,6 +241,13 @@ func runC05(c *Ctx, ambient bool) {
 	if t.Bool(1, 3, "staged-uncommitted") {
 		h.WriteFile("staged.bin", h.NewContent())
 		w.Git(u1, "add", "staged.bin")
+		// the staged version may differ from what is in the working tree now
+		switch t.Choose(3, "after-staging") {
+		case 1:
+			h.WriteFile("staged.bin", h.NewContent())
+		case 2:
+			os.Remove(filepath.Join(u1, "staged.bin"))
+		}
 	}
 	if t.Bool(1, 5, "detached-head") {
 		if _, code := w.GitQ(u1, "rev-parse", "-q", "--verify", "HEAD~1"); code == 0 {
@@ -262,11 +298,11 @@ func runC05(c *Ctx, ambient bool) {
 	}
 
 	// ---- must-retain set (under-approximation of the statement), by plumbing ----
-	ret := &retainSet{why: map[string]string{}}
+	ret := &retainSet{why: map[string]string{}, exclude: exclude}
 	if !force {
 		for _, wt := range worktrees {
-			ret.addPtrs(w.TreePointers(wt, "HEAD"), "HEAD of worktree "+filepath.Base(wt))
-			ret.addPtrs(w.IndexPointers(wt), "index of worktree "+filepath.Base(wt))
+			ret.addPtrsFiltered(treeByOid(w.TreePointers(wt, "HEAD")), "HEAD of worktree "+filepath.Base(wt))
+			ret.addPtrsFiltered(treeByOid(w.IndexPointers(wt)), "index of worktree "+filepath.Base(wt))
 		}
 	}
 	// stashes
@@ -317,7 +353,7 @@ func runC05(c *Ctx, ambient bool) {
 				window := time.Duration(refsDays+offsetDays) * day
 				// well inside the window: at least 3 hours younger than the boundary
 				if w.Now.Sub(d) < window-3*time.Hour {
-					ret.addPtrs(w.TreePointers(u1, f[1]), "recent ref "+f[0])
+					ret.addPtrsFiltered(treeByOid(w.TreePointers(u1, f[1])), "recent ref "+f[0])
 					recentTips = append(recentTips, f[1])
 				}
 			}
@@ -334,7 +370,7 @@ func runC05(c *Ctx, ambient bool) {
 					if _, code := w.GitQ(u1, "rev-parse", "-q", "--verify", cm+"^"); code != 0 {
 						continue
 					}
-					ret.addPtrs(w.blobPointers(u1, w.diffTreeBlobs(u1, '-', cm+"^", cm)), "previous version replaced by recent commit "+cm[:8])
+					ret.addPtrsFiltered(w.blobPointers(u1, w.diffTreeBlobs(u1, '-', cm+"^", cm)), "previous version replaced by recent commit "+cm[:8])
 				}
 			}
 		}
@@ -342,7 +378,18 @@ func runC05(c *Ctx, ambient bool) {
 	// verify-remote: reachable objects the remote does not hold
 	if verify {
 		for oid, p := range w.ReachablePointers(u1, "--all") {
-			if serverLacks[oid] && p.Size > 0 {
+			if !serverLacks[oid] || p.Size == 0 {
+				continue
+			}
+			// paths under lfs.fetchexclude are documented as prunable; whether
+			// --verify-remote should still protect them is not demanded
+			excluded := false
+			for _, path := range p.Paths {
+				if exclude != "" && matchSimple(exclude, path) {
+					excluded = true
+				}
+			}
+			if !excluded {
 				ret.add(oid, "reachable and missing on the remote (--verify-remote)")
 			}
 		}
@@ -352,7 +399,7 @@ func runC05(c *Ctx, ambient bool) {
 	out, code := w.Git(u1, args...)
 	after := LocalObjects(g)
 	c.Res.SimDays = 40
-	desc := fmt.Sprintf("%v (attributes %q, recentrefsdays=%d recentcommitsdays=%d pruneoffsetdays=%d)", args, spelling, refsDays, commitsDays, offsetDays)
+	desc := fmt.Sprintf("%v (attributes %q, recentrefsdays=%d recentcommitsdays=%d pruneoffsetdays=%d fetchexclude=%q)", args, spelling, refsDays, commitsDays, offsetDays, exclude)
 	if code != 0 {
 		c.Probe("prune-exit-nonzero")
 	} else {
@@ -394,4 +441,18 @@ func runC05(c *Ctx, ambient bool) {
 		c.T.Note(fmt.Sprintf("%v %d", s.Args, s.Exit))
 	}
 	c.T.Note(strings.Join(lost, ","))
+}
+
+// treeByOid regroups a path->pointer map by oid with all its paths.
+func treeByOid(m map[string]*PtrRef) map[string]*PtrRef {
+	out := map[string]*PtrRef{}
+	for path, p := range m {
+		q := out[p.Oid]
+		if q == nil {
+			q = &PtrRef{Oid: p.Oid, Size: p.Size, Blob: p.Blob}
+			out[p.Oid] = q
+		}
+		q.Paths = append(q.Paths, path)
+	}
+	return out
 }
